@@ -142,6 +142,17 @@ def run(tier, seed):
         if dyadic:
             ops = ops + bmm.edge_ops(grid[:3], cfg['tol'])
         units += ex.bfs_units(cfg, entropy, ops, 2, opts=dict(dyadic=dyadic, final=ops), **common)
+    # entropy 0 is a legitimate seed too (depth-1 histories on every configuration)
+    for cfg, dyadic in configs(tier):
+        grid = bmm.shift_grid(bmm.G5 if cfg['tol'] else bmm.G4, cfg['t0'], cfg['t1'])
+        ops = bmm.grid_ops(grid, zero=False)
+        units += ex.bfs_units(cfg, 0, ops, 1, opts=dict(dyadic=dyadic, final=ops[:6]), **common)
+    # two long sequential sweeps in different halves of the interval: trees deeper than 32 and 64 levels
+    deep_hist = [['q', 0.5, 1.0], ['sweepF', 0.0, 70, 0.005], ['sweepF', 0.5, 70, 0.005]]
+    for cfg in [bmm.cfg_make(size=(2,), levy='space-time', cache_size=45),
+                bmm.cfg_make(size=(2,), levy='none', cache_size=None)]:
+        units.append(dict(kind='bfs', cfg=cfg, entropy=entropy, alphabet=[], prefix=deep_hist, depth=3,
+                          opts=dict(dyadic=False, final=[], entropy_check=False), **common))
     # deep dyadic products
     deep = [(bmm.cfg_make(size=(2, 2), levy='space-time', tol=0.1, halfway=True, cache_size=2), bmm.G10),
             (bmm.cfg_make(size=(2, 2), levy='foster', tol=0.1, halfway=True, cache_size=45), bmm.G10),
